@@ -16,12 +16,13 @@ package csv
 // body is not verified.
 //@ func BOMAwareCSVReader
 //@   trusted
-//@   ensures result != nil && fresh(result) && !result.ReuseRecord && result.FieldsPerRecord == 0
+//@   ensures result != nil && fresh(result) && !result.ReuseRecord && result.FieldsPerRecord == 0 && !result.TrimLeadingSpace && !result.LazyQuotes && result.Comma == 44 && result.Comment == 0
 
 //@ func New
 //@   props C01 C05
 //@   requires reader != nil
 //@   ensures [shape] result.1 == nil ==> result.0 != nil && fileOK(result.0) && result.0.currentRow == nil && result.0.rowNumber == 0 && len(result.0.missingRequiredColumns) == 0 && result.0.csvReader != nil && fresh(result.0)
+//@   ensures [standard-csv-dialect] result.1 == nil ==> !result.0.csvReader.TrimLeadingSpace && !result.0.csvReader.LazyQuotes && result.0.csvReader.Comma == 44 && result.0.csvReader.Comment == 0
 //@   ensures [by-name] result.1 == nil ==> (forall s string :: has(result.0.headerMap, s) ==> result.0.headerContent[result.0.headerMap[s]] == s)
 //@   ensures [complete] result.1 == nil ==> (forall j int :: 0 <= j && j < len(result.0.headerContent) ==> has(result.0.headerMap, result.0.headerContent[j]))
 //@   ensures [name] result.1 == nil ==> result.0.name == name
